@@ -65,6 +65,14 @@ package tui
 //@ func LightRenderer.csi trusted
 //@ func LightRenderer.disableMouse
 //@ requires r != nil
+// Resume after SIGCONT: mouse reporting is switched off on the terminal while r.mouse still says it is on -
+// disableMouse writes nothing once the flag is cleared, and Close would then leave the modes enabled on exit.
+//@ func LightRenderer.Resume region @"} else if sigcont && !r.fullscreen && r.mouse {"
+//@ property C14
+//@ requires r != nil
+//@ modifies r.mouse
+//@ assert @"r.disableMouse()" r.mouse
+//@ ensures sigcont && !r.fullscreen && old(r.mouse) ==> !r.mouse
 //@ func LightRenderer.disableModes
 //@ property C14
 //@ requires r != nil
